@@ -37,12 +37,17 @@ static inline void *vg_malloc(size_t n) {
     vg_hdr *h = (vg_hdr *)(p - sizeof(vg_hdr));
     if ((char*)h < m + pg) { munmap(m, maplen); return NULL; }
     h->magic = VG_MAGIC; h->size = n; h->maplen = maplen; h->map = m;
+    /* the accessible tail behind the block (alignment, slack) carries a pattern: READING it goes unnoticed (external kernels do), WRITING it is
+       detected when the block is released */
+    memset(p + n, 0xA5, (size_t)(end - (p + n)));
     return p;
 }
 static inline void vg_free(void *p) {
     if (!p) return;
     vg_hdr *h = (vg_hdr *)((char*)p - sizeof(vg_hdr));
     if (h->magic != VG_MAGIC) { abort(); }
+    { unsigned char *q = (unsigned char *)p + h->size, *e = (unsigned char *)h->map + h->maplen - 4096;
+      for (; q < e; q++) if (*q != 0xA5) abort(); }
     h->magic = 0;
     /* keep the mapping but make it inaccessible: use-after-free faults */
     mprotect(h->map, h->maplen, PROT_NONE);
